@@ -116,3 +116,15 @@ Theorem C01_slowstart_invariant_balance : forall T l p l',
   0 <= T -> Forall ss_good l -> pick2 smooth T l = (p, l') -> Forall ss_good l'.
 Proof. exact (fun T l p l' HT G H => proj1 (pick2_spec smooth T l p l' smooth_bal_ok HT G H)). Qed.
 Print Assumptions C01_slowstart_invariant_balance.
+
+(* A reload that does not change anything (BalanceRR.Update with a conf that names exactly the current backends with
+   their current weights, in any order) leaves the whole smooth-WRR state — list order, weights, credits — unchanged,
+   so the exact windows continue across it.  The harness observes this on the implementation with IPv4, IPv6-literal
+   and host-name backends and no-op reloads in the middle of a period. *)
+Theorem C01_update_identity : forall bs conf, same_conf bs conf -> update bs conf = bs.
+Proof. exact update_identity. Qed.
+Print Assumptions C01_update_identity.
+Example C01_update_identity_nonvacuous :
+  let bs := snd (picks_by swrr_pick (init [(0,5);(1,1);(2,1)]) 3) in
+  update bs [(2,1);(0,5);(1,1)] = bs /\ (b_c (nth 0 bs (0,0,0,true)) =? 500) = false.
+Proof. exact (conj eq_refl eq_refl). Qed.
